@@ -33,7 +33,7 @@ RULE = ("one evaluation = one seeded history (<= 9 operations, <= 12 files of 3.
         "comparison, idempotence comparison. non-trivial = at least one tool operation and one comparison; distinct = "
         "distinct event-log digests")
 STATE_MEASURE = "distinct (tool, options, input producer, basin mode of the input, software-version class) tuples"
-PROBES = ["layout_contiguous", "layout_chunked", "layout_gzip", "layout_lzf", "layout_zstd_low", "layout_zstd_high",
+PROBES = ["tool_isolated", "layout_contiguous", "layout_chunked", "layout_gzip", "layout_lzf", "layout_zstd_low", "layout_zstd_high",
           "chunks_longer_than_data", "log_vlen", "log_fixed_nonascii", "log_empty", "table_with_attrs", "table_empty",
           "basin_internal", "basin_file", "basin_mapped", "basin_multi_defs", "basin_via_writer", "defective_feature_dropped",
           "unknown_feature_dropped", "strip_logs", "strip_basins", "chain_compress_compress", "chain_repack_compress",
@@ -46,6 +46,8 @@ COMPONENTS = {
     "stub": ["wall clock (virtual)", "uuid/random identifiers (seeded)", "dclab version string (0.99.0)"],
 }
 ASSUMPTIONS = [
+    "every task is executed in a forked grandchild of the run (same virtual clock, same files), so that a crash in native code "
+    "is recorded as a violation (C08.tool.crash) instead of ending the run",
     "generated inputs carry metadata consistent with their data (event count, roi size, samples per event), so that the writer's "
     "metadata completion at the end of compress/condense has nothing to change",
     "a zero-length log, table or feature dataset holds no data: it may be absent from the output",
@@ -86,7 +88,7 @@ _HEXSUFFIX = re.compile(r"_[0-9a-f]{32}$")
 
 def plan(tier):
     if tier == "quick":
-        return {"runs": 420, "budget_s": 45, "run_timeout_s": 180, "det_pairs": 3}
+        return {"runs": 400, "budget_s": 38, "run_timeout_s": 180, "det_pairs": 3}
     return {"runs": 30000, "budget_s": 780, "run_timeout_s": 300, "det_pairs": 3}
 
 
@@ -602,8 +604,83 @@ class World:
                 o = ev[f]
                 if isinstance(o, h5py.Dataset) and o.shape[0] == 0:
                     empty.append(f)
-            return {"has_events_group": ev is not None, "events": names, "empty": empty,
+            vlen_hi = False
+            for g in ("logs", "basins"):
+                for k in (h[g] if g in h else []):
+                    d = h[g][k]
+                    fl = d.id.get_create_plist().get_filter_by_id(32015)
+                    if d.dtype.kind == "O" and fl is not None and fl[1][0] >= 5:
+                        vlen_hi = True
+            return {"has_events_group": ev is not None, "events": names, "empty": empty, "vlen_hi": vlen_hi,
                     "n_basins": len(h["basins"]) if "basins" in h else 0}
+
+    def run_tool(self, fn, oracle, sig, label, crash_what=None):
+        """Execute fn() (a dclab CLI task) in a forked grandchild, so that native code that kills the process is an
+        observation instead of the end of the run.  Returns "ok" | "raised" | "crashed"; failures are recorded as
+        (non-fatal) violations of `oracle` (exception) or C08.tool.crash (death by signal)."""
+        import os
+        import sys
+        import threading
+        import traceback
+        ctx = self.ctx
+        ctx.probe("tool_isolated")
+        for t in threading.enumerate():   # (basin availability checkers of closed datasets: let them finish before forking)
+            if t is not threading.current_thread():
+                t.join(timeout=5)
+        r, w = os.pipe()
+        sys.stdout.flush()
+        sys.stderr.flush()
+        pid = os.fork()
+        if pid == 0:
+            code = 0
+            try:
+                os.close(r)
+                devnull = os.open(os.devnull, os.O_WRONLY)
+                os.dup2(devnull, 1)
+                os.dup2(devnull, 2)
+                rep = {"status": "ok"}
+                try:
+                    with quiet():
+                        fn()
+                except BaseException as e:  # noqa: the task's failure is data here
+                    where = "?"
+                    for fs in reversed(traceback.extract_tb(e.__traceback__)):
+                        if "/dclab/" in fs.filename:
+                            where = fs.filename.split("/dclab/", 1)[1] + ":" + fs.name
+                            break
+                    rep = {"status": "raised", "exc": type(e).__name__, "msg": str(e)[:300], "where": where,
+                           "tb": "".join(traceback.format_exception(type(e), e, e.__traceback__))[-1200:]}
+                with os.fdopen(w, "wb") as f:
+                    f.write(json.dumps(rep).encode())
+            except BaseException:
+                code = 3
+            finally:
+                os._exit(code)
+        os.close(w)
+        chunks = []
+        while True:
+            b = os.read(r, 1 << 16)
+            if not b:
+                break
+            chunks.append(b)
+        os.close(r)
+        _, status = os.waitpid(pid, 0)
+        if os.WIFSIGNALED(status):
+            ctx.violation("C08.tool.crash", f"{label}: the process executing the task was killed by signal {os.WTERMSIG(status)} "
+                          f"(crash in native code, no Python exception)",
+                          sig={"what": crash_what or sig.get("what"), "signal": os.WTERMSIG(status)}, fatal=False)
+            return "crashed"
+        try:
+            rep = json.loads(b"".join(chunks).decode())
+        except ValueError:
+            raise RuntimeError(f"tool runner died without report (wait status {status})")
+        if rep["status"] == "raised":
+            sg = dict(sig)
+            if sg.get("what") == "other":   # (classified inputs keep one signature whatever the exception type)
+                sg.update({"exc": rep["exc"], "where": rep["where"]})
+            ctx.violation(oracle, f"{label}: unexpected {rep['exc']}: {rep['msg']}\n{rep['tb']}", sig=sg, fatal=False)
+            return "raised " + rep["exc"]
+        return "ok"
 
     def snapshot(self):
         out = {}
@@ -640,16 +717,16 @@ class World:
             what = "no_events_group"
         elif facts["empty"]:
             what = "empty_feature"
+        crash_what = "vlen_strings_zstd5" if facts["vlen_hi"] else None
         label = f"{tool} {json.dumps(opts, sort_keys=True)} {src['name']}"
         before = self.snapshot()
-        with ctx.sut("C08.tool.raises", sig={"what": what}, fatal=False) as s:
-            with quiet():
-                getattr(cli, tool)(path_in=self.dir / src["name"], path_out=self.dir / out, **opts)
+        res = self.run_tool(lambda: getattr(cli, tool)(path_in=self.dir / src["name"], path_out=self.dir / out, **opts),
+                            "C08.tool.raises", {"what": what}, label, crash_what=crash_what)
         ctx.state_ops += 1
         ctx.state(tool, json.dumps(opts, sort_keys=True), src["kind"], src["basin"], src["vclass"])
         self.check_unchanged(before, label)
-        if s.exc is not None:
-            ctx.log("t", label + " raised " + type(s.exc).__name__)
+        if res != "ok":
+            ctx.log("t", label + " " + res)
             return
         if opts.get("strip_logs"):
             ctx.probe("strip_logs")
@@ -674,11 +751,10 @@ class World:
         if ok and op.get("again") and tool in ("compress", "repack"):
             out2 = self.newname(tool[:4] + "2")
             before = self.snapshot()
-            with ctx.sut("C08.tool.raises", sig={"what": "second_application"}, fatal=False) as s2:
-                with quiet():
-                    getattr(cli, tool)(path_in=self.dir / out, path_out=self.dir / out2, **opts)
+            res2 = self.run_tool(lambda: getattr(cli, tool)(path_in=self.dir / out, path_out=self.dir / out2, **opts),
+                                 "C08.tool.raises", {"what": "second_application"}, label + " (again)")
             self.check_unchanged(before, label + " (again)")
-            if s2.exc is None:
+            if res2 == "ok":
                 ctx.probe("idempotence_checked")
                 self.check_copy(out, out2, tool, opts, label + " applied to its own output", "C08.idempotent", strict=True)
                 ctx.log("t", label + " again -> " + out2, self.summary(out2))
@@ -754,7 +830,8 @@ class World:
                 viol("feature.extra", f"output holds features {surplus} that the input does not give (model: defective "
                      f"{sorted(defective)}, unknown {sorted(unknown)}, stripped {sorted(stripped)})", {"what": kind})
             if strict and (defective or unknown):
-                viol("feature.missing", f"second application still drops {sorted(defective | unknown)}", {"what": "second_drop"})
+                viol("feature.missing", f"second application still drops {sorted(defective | unknown)}",
+                     {"what": "issue141_log_stripped" if (strip_logs and defective == {"volume"}) else "second_drop"})
             for f in sorted(expected & onames):
                 ctx.checked()
                 d = self.obj_diff(iev[f], oev[f])
@@ -830,7 +907,9 @@ class World:
                 nonempty = [f for f in keep if f in ("contour", "trace") or len(dsi[f]) > 0]
                 ctx.checked()
                 if sorted(set(nonempty) - set(fout)) or sorted(set(fout) - set(keep)):
-                    viol("feature.set", f"dclab lists {sorted(fout)} for the output, {sorted(keep)} for the input", {"what": "dclab_set"})
+                    only_volume = set(nonempty) - set(fout) == {"volume"} and not set(fout) - set(keep)
+                    viol("feature.set", f"dclab lists {sorted(fout)} for the output, {sorted(keep)} for the input",
+                         {"what": "issue141_log_stripped" if (strip_logs and only_volume and "dclab_issue_141" in dsi.logs) else "dclab_set"})
                 for f in nonempty:
                     if f not in fout:
                         continue
@@ -1069,15 +1148,14 @@ class World:
         out = self.newname("tdms")
         label = f"tdms2rtdc {fx} skip_initial={op['skip_i']} skip_final={op['skip_f']}"
         before = self.snapshot()
-        with ctx.sut("C08.tool.raises", sig={"what": "tdms2rtdc"}, fatal=False) as s:
-            with quiet():
-                cli.tdms2rtdc(path_tdms=tin, path_rtdc=self.dir / out, skip_initial_empty_image=op["skip_i"],
-                              skip_final_empty_image=op["skip_f"])
+        res = self.run_tool(lambda: cli.tdms2rtdc(path_tdms=tin, path_rtdc=self.dir / out, skip_initial_empty_image=op["skip_i"],
+                                                  skip_final_empty_image=op["skip_f"]),
+                            "C08.tool.raises", {"what": "tdms2rtdc"}, label)
         ctx.state_ops += 1
         ctx.state("tdms2rtdc", fx, op["skip_i"], op["skip_f"], "-")
         self.check_unchanged(before, label)
-        if s.exc is not None:
-            ctx.log("t", label + " raised " + type(s.exc).__name__)
+        if res != "ok":
+            ctx.log("t", label + " " + res)
             return
         ctx.probe("tdms_converted")
         with quiet():
